@@ -190,6 +190,14 @@ func configs(c *lib.Ctx) []*config {
 				Admin: "create r (id, parent) key(id) index(parent) in r(id)" + sfx(m)},
 		}}
 		add(&config{sc: sc, Rows: [][]row{rows}, Ins: [][]row{rows}}, 5, 8, 2, 3)
+		// 4b. the same table with the foreign key index declared BEFORE the key it
+		// refers to (the index numbers of source and target are the other way round)
+		sc2 := &schemaDef{Name: "recursive-index-first/" + m, Tables: []tableDef{
+			{Name: "r", Cols: []string{"id", "parent"}, Keys: [][]int{{0}},
+				Fks:   []fkDef{{Cols: []int{1}, To: 0, ToCols: []int{0}, Mode: m}},
+				Admin: "create r (id, parent) index(parent) in r(id)" + sfx(m) + " key(id)"},
+		}}
+		add(&config{sc: sc2, Rows: [][]row{rows}, Ins: [][]row{rows}}, 4, 7, 2, 3)
 	}
 	for _, m := range modes {
 		// 5. chain p <- c <- g: deletes cascade from p to c; what happens to g
